@@ -79,11 +79,19 @@ impl Hooked {
         }
     }
 
-    fn injected(&self, kind: ErrorKind) -> Error {
+    /// An injected failure is shaped like the local transport's: the cause is an
+    /// `io::Error` carrying the matching OS error, and the URL names the file.
+    fn injected(&self, kind: ErrorKind, relpath: &str) -> Error {
+        let errno = match kind {
+            ErrorKind::NotFound => 2,          // ENOENT
+            ErrorKind::AlreadyExists => 17,    // EEXIST
+            ErrorKind::PermissionDenied => 13, // EACCES
+            _ => 5,                            // EIO
+        };
         Error {
             kind,
-            source: Some("injected by verif hook".into()),
-            url: None,
+            source: Some(Box::new(std::io::Error::from_raw_os_error(errno))),
+            url: self.inner.url().join(relpath).ok(),
         }
     }
 
@@ -108,7 +116,7 @@ macro_rules! hooked_op {
         match $self.hook.before(&call) {
             Action::Fail(kind) => {
                 $self.hook.after(&call, false);
-                Err($self.injected(kind))
+                Err($self.injected(kind, $relpath))
             }
             Action::Proceed => {
                 let result = $op.await;
